@@ -30,12 +30,91 @@ var frozenLayouts = map[string][]frozenField{
 var canonFieldCache = map[*types.Struct][]string{}
 
 func shortType(t types.Type) string {
-	return types.TypeString(t, func(p *types.Package) string {
+	s := types.TypeString(t, func(p *types.Package) string {
 		if strings.HasSuffix(p.Path(), "/src") {
 			return ""
 		}
 		return p.Name()
 	})
+	for from, to := range typeAliasNames {
+		s = wordReplace(s, from, to)
+	}
+	return s
+}
+
+func wordReplace(s, from, to string) string {
+	out := ""
+	for {
+		i := strings.Index(s, from)
+		if i < 0 {
+			return out + s
+		}
+		before := i == 0 || !isIdentByte(s[i-1])
+		after := i+len(from) == len(s) || !isIdentByte(s[i+len(from)])
+		if before && after {
+			out += s[:i] + to
+		} else {
+			out += s[:i+len(from)]
+		}
+		s = s[i+len(from):]
+	}
+}
+
+func isIdentByte(b byte) bool {
+	return b == '_' || b >= '0' && b <= '9' || b >= 'a' && b <= 'z' || b >= 'A' && b <= 'Z'
+}
+
+// A frozen struct that was renamed as a type (parseRule -> exprRule): when package lang has no type of
+// the frozen name and exactly one named struct whose field types are the frozen ones, in order, that
+// struct goes by the frozen name in the checker.
+var typeAliasNames = map[string]string{} // source name -> frozen name
+
+func canonTypeName(tn *types.TypeName) string {
+	if tn == nil {
+		return ""
+	}
+	if to, ok := typeAliasNames[tn.Name()]; ok && tn.Pkg() != nil && strings.HasSuffix(tn.Pkg().Path(), "/src") {
+		return to
+	}
+	return tn.Name()
+}
+
+func computeTypeAliases(lang *types.Package) {
+	if lang == nil {
+		return
+	}
+	scope := lang.Scope()
+	for frozen, fz := range frozenLayouts {
+		if _, isType := scope.Lookup(frozen).(*types.TypeName); isType {
+			continue
+		}
+		var cands []string
+		for _, n := range scope.Names() {
+			tn, ok := scope.Lookup(n).(*types.TypeName)
+			if !ok {
+				continue
+			}
+			if _, taken := frozenLayouts[n]; taken {
+				continue
+			}
+			st, ok := tn.Type().Underlying().(*types.Struct)
+			if !ok || st.NumFields() != len(fz) {
+				continue
+			}
+			same := true
+			for i, f := range fz {
+				if wordReplace(shortType(st.Field(i).Type()), n, frozen) != f.typ {
+					same = false
+				}
+			}
+			if same {
+				cands = append(cands, n)
+			}
+		}
+		if len(cands) == 1 {
+			typeAliasNames[cands[0]] = frozen
+		}
+	}
 }
 
 // canonFieldName: the name the checker uses for field idx of struct st (named `named`).
@@ -50,7 +129,7 @@ func canonFieldName(named *types.Named, st *types.Struct, idx int) string {
 	for i := range names {
 		names[i] = st.Field(i).Name()
 	}
-	if fz, ok := frozenLayouts[named.Obj().Name()]; ok && strings.HasSuffix(named.Obj().Pkg().Path(), "/src") && len(fz) == st.NumFields() {
+	if fz, ok := frozenLayouts[canonTypeName(named.Obj())]; ok && strings.HasSuffix(named.Obj().Pkg().Path(), "/src") && len(fz) == st.NumFields() {
 		same := true
 		for i, f := range fz {
 			if shortType(st.Field(i).Type()) != f.typ {
